@@ -97,6 +97,47 @@ def powers_of(a, b, c, d=0):
     return pw
 
 
+_KNOWN_SEEN = set()
+
+
+def known_once(chk, fid, kind):
+    """print one KNOWN-FINDING line per (finding, kind of input); every hit is counted"""
+    key = (fid[0], kind)
+    if key not in _KNOWN_SEEN:
+        _KNOWN_SEEN.add(key)
+        chk.known(fid[0], fid[1])
+
+
+_PENDING = []
+MAX_REPORTED = 25
+
+
+def defer(record, what, tag, kind):
+    """a failing input: attribution (re-runs of the real code with one repair) is done for all of them in parallel"""
+    _PENDING.append((record, what, tag, kind))
+
+
+def resolve_pending(chk):
+    from concurrent.futures import ThreadPoolExecutor
+    if not _PENDING:
+        return
+    with ThreadPoolExecutor(max_workers=10) as ex:
+        fids = list(ex.map(lambda item: attribute(PROP, item[0]), _PENDING))
+    nviol = 0
+    for (record, what, tag, kind), fid in zip(_PENDING, fids):
+        if fid:
+            known_once(chk, fid, kind)
+            chk.count(f"{tag}:known:{fid[0]}")
+        else:
+            nviol += 1
+            chk.count(f"{tag}:violation")
+            if nviol <= MAX_REPORTED:
+                chk.violation(what, record)
+    if nviol > MAX_REPORTED:
+        print(f"  ({nviol - MAX_REPORTED} further violations counted in the evidence, not listed)", flush=True)
+    del _PENDING[:]
+
+
 def chunks(lst, n):
     return [lst[i:i + n] for i in range(0, len(lst), n)]
 
@@ -107,7 +148,7 @@ def chunks(lst, n):
 
 def fs(r):
     r = Fr(r)
-    return f"{r.numerator}/{r.denominator}"
+    return str(r.numerator) if r.denominator == 1 else f"{r.numerator}/{r.denominator}"
 
 
 def dist_cases(R, quick):
@@ -132,8 +173,9 @@ def dist_cases(R, quick):
         "Beta": lambda: [fs(R.choice([Fr(1, 2), 1, Fr(3, 2), 2, 3])), fs(R.choice([Fr(1, 2), 1, 2, 3]))],
         "Bernoulli": lambda: [fs(R.choice([Fr(1, 10), Fr(1, 3), Fr(1, 2), Fr(9, 10)]))],
         "DiscreteUniform": lambda: (lambda a, n: [str(a), str(a + n)])(R.randint(-3, 3), R.randint(0, 4)),
-        "TruncNormal": lambda: (lambda mu, a, w: [fs(mu), fs(R.choice([Fr(1, 4), 1, 2])), fs(a), fs(a + w)])(
-            R.choice(half), R.choice(half), R.choice([1, 2, 3])),
+        # truncation window overlapping [mu - 2 sd, mu + 2 sd] (far tails make sympy's erf algebra take minutes)
+        "TruncNormal": lambda: (lambda mu, s2, lo, w: [fs(mu), fs(s2), fs(mu + lo), fs(mu + lo + w)])(
+            R.choice(half), R.choice([Fr(1, 4), 1, 2]), R.choice([Fr(-3, 2), -1, Fr(-1, 2), 0]), R.choice([1, 2, 3])),
     }
     nrand = 1 if quick else 4
     out = list(fixed)
@@ -153,7 +195,7 @@ def exponent_cases(R, fam, quick):
     allt = [(a, b, c) for a in range(hi + 1) for b in range(hi + 1) for c in range(hi + 1) if b + c > 0]
     must = [(0, 1, 0), (0, 0, 1), (1, 1, 1), (0, 2, 0), (1, 0, 2), (2, 1, 0), (3, 3, 3), (2, 2, 2)]
     if quick:
-        k = 6 if fam in SLOW else 14
+        k = (3 if fam == "TruncNormal" else 6) if fam in SLOW else 14
         rest = [t for t in allt if t not in must]
         R.shuffle(rest)
         trig = (must[:5] if fam in SLOW else must) + rest[:k]
@@ -176,11 +218,20 @@ def exponent_cases(R, fam, quick):
 
 def run(tier):
     chk = Check(PROP, tier)
+    _KNOWN_SEEN.clear()
     lean_ok = lean_gate(chk, THEOREMS)
     quick = tier == "quick"
+    del _PENDING[:]
     if lean_ok:
+        import time
+        t0 = time.time()
         structural(chk, quick)
+        t1 = time.time()
         numeric_and_programs(chk, quick)
+        t2 = time.time()
+        resolve_pending(chk)
+        chk.coverage["phase_secs"] = {"structural": round(t1 - t0, 1), "numeric+programs": round(t2 - t1, 1),
+                                      "attribution": round(time.time() - t2, 1)}
     chk.assumptions = [
         "values of transcendental expectations are compared numerically with mpmath quadrature (tolerances: exact "
         "mode %s, rounded mode %s, relative to the scale of the expectation) — evidence, not proof" % (L.TOL["exact"], L.TOL["rounded"]),
@@ -377,12 +428,7 @@ def compare_moment(chk, fam, ps, pw, polar, oracle, tag="numeric"):
             what = (f"get_func_moment({fam}({', '.join(ps)}), {pw}) [{mode}] = {rec['re']} but the defining "
                     f"integral is {oracle['value']}")
         if bad:
-            fid = attribute(PROP, record)
-            if fid:
-                chk.known(fid[0], fid[1])
-                chk.count(f"{tag}:known:{fid[0]}")
-            else:
-                chk.violation(what, record)
+            defer(record, what, tag, "moment")
             reported = True
         else:
             chk.count(f"{tag}:agree:{mode}")
@@ -431,11 +477,11 @@ def numeric_and_programs(chk, quick):
     for fam, ps in dist_cases(R, quick):
         trig, exps, mix = exponent_cases(R, fam, quick)
         quads = [(a, b, c, 0) for a, b, c in trig] + [(a, 0, 0, d) for a, d in exps] + list(mix)
-        per = 6 if fam in SLOW else 12
+        per = 1 if fam == "TruncNormal" else (3 if fam in SLOW else 12)
         for ch in chunks(quads, per):
             pws = [powers_of(*e) for e in ch]
             tasks.append({"fn": T + "polar_moments", "args": {"family": fam, "params": ps, "powers_list": pws},
-                          "timeout": 150 if quick else 600})
+                          "timeout": (60 if fam in SLOW else 150) if quick else 600})
             meta.append(("polar", fam, ps, ch))
             tasks.append({"fn": T + "quad_moments", "args": {"family": fam, "params": ps, "exps": [list(e) for e in ch]},
                           "timeout": 150 if quick else 600})
@@ -553,12 +599,7 @@ def numeric_and_programs(chk, quick):
             chk.count("const:agree:" + mode)
             chk.nontrivial.add(("const", f, a, k))
         else:
-            fid = attribute(PROP, record)
-            if fid:
-                chk.known(fid[0], fid[1])
-                chk.count("const:known:" + fid[0])
-            else:
-                chk.violation(f"get_const_moment {f}({a})**{k} [{mode}] = {rec['re']}, true {constval[(f, a, k)]}", record)
+            defer(record, f"get_const_moment {f}({a})**{k} [{mode}] = {rec['re']}, true {constval[(f, a, k)]}", "const", "const")
 
     # ---- evaluate: programs
     mvals = {}
@@ -651,19 +692,14 @@ def evaluate_program(chk, c, mode, r, mvals, nmax):
               "actual": v[1] if isinstance(v, (list, tuple)) else str(v),
               "expected_at": None if e is None else mp.nstr(e, 30), "goal": c["goals"][gi], "n": n,
               "closed_form": res["goals"][gi].get("closed_form")}
-    fid = attribute(PROP, record)
-    if fid:
-        chk.known(fid[0], fid[1])
-        chk.count("programs:known:" + fid[0])
-        return "known:" + fid[0]
     if e is None:
         what = (f"E({L._mono_txt(c['goals'][gi])})({n}) answered {record['actual']} although a needed exponential "
                 f"moment does not exist [{mode}] in program:\n{c['text']}")
     else:
         what = (f"E({L._mono_txt(c['goals'][gi])})({n}) = {record['actual']} but the true value is "
                 f"{record['expected_at']} [{mode}] in program:\n{c['text']}")
-    chk.violation(what, record)
-    return "VIOLATION"
+    defer(record, what, "programs", "program")
+    return "mismatch"
 
 
 _CONST_CACHE = {}
@@ -743,8 +779,9 @@ def replay(path):
         print("outcome:", out)
         for g in res[0]["result"].get("goals", []):
             print("  ", g.get("mono"), g.get("values"), g.get("error"))
-        bad = out == "VIOLATION"
-        if bad:
+        del _PENDING[:]
+        if out == "mismatch":
+            print(f"VIOLATION property={PROP} replay={path}")
             return 1
         return 0
     else:
